@@ -74,16 +74,16 @@ theorem firstSome_segment {β : Type} (get : FileData → Option β) (pre seg po
   rw [firstSome_append, List.append_assoc, firstSome_append, firstSome_append, firstSome_cons, h]
   cases firstSome get pre with
   | some x => rfl
-  | none =>
-    simp only
-    cases firstSome get seg <;> rfl
+  | none => cases firstSome get seg <;> rfl
 
 theorem status_segment (x : Nat) (pre seg post : List FileData) (g : FileData)
     (h : status x [g] = status x seg) :
     status x (pre ++ g :: post) = status x (pre ++ seg ++ post) := by
   unfold status at h ⊢
   apply firstSome_segment
-  simpa [firstSome] using h
+  rw [← h]
+  simp only [firstSome]
+  split <;> simp_all
 
 /-- a segment that excludes the active log may be replaced by a file that stands for it. -/
 theorem pinv_replace {exc : String → Prop} {sf : SFile} {live : List Nat} {i : Nat} {p : Partition}
